@@ -47,6 +47,12 @@ Topos(n)    == { P \in [1 .. n -> -1 .. n - 1] : WF(P) }
 \* ... with parents before children
 SortedTopos(n) == { P \in [1 .. n -> -1 .. n - 1] : P[1] = -1 /\ \A i \in 2 .. n : P[i] >= 0 /\ P[i] < i - 1 }
 
+\* in-place re-parenting through a node handle (t.node(i).pid = j): the edit that keeps a well-formed tree well-formed.
+\* Histories "query, edit in place, query again" are generated from these (a result remembered across the edit is then visible).
+Reparent(P, i, j)   == [P EXCEPT ![i + 1] = j]
+ReparentOK(P, i, j) == i \in Nodes(P) /\ i # 0 /\ j \in Nodes(P) /\ j \notin Desc(P, i) /\ j # Par(P, i)
+Edits(P)            == { e \in Nodes(P) \X Nodes(P) : ReparentOK(P, e[1], e[2]) }
+
 Range(s)    == { s[k] : k \in DOMAIN s }
 Injective(s) == \A a, b \in DOMAIN s : s[a] = s[b] => a = b
 \* position (0-based) of value v in sequence s; -1 if absent
